@@ -276,6 +276,14 @@ class Sim:
         trials = []
         probe = p.get("energy_probe", False)
         cur = None
+        edit = p.get("pre_run_edit")
+        if edit:
+            # the user prepares the system between construction and the first run
+            if "cell" in edit:
+                self.atoms.set_cell(self.atoms.cell.array * edit["cell"], scale_atoms=True)
+            i = edit["atom"] % len(self.atoms)
+            if i not in (p.get("fixed") or []):
+                self.atoms.positions[i] += np.array(edit["shift"])
         for step in mc.irun(p["steps"]):
             for name in step:
                 # the generator yields the name BEFORE the trial runs: finish bookkeeping of the previous one
